@@ -9,6 +9,7 @@ import (
 	"fmt"
 	"os"
 	"strconv"
+	"strings"
 	"testing"
 
 	"pipelined.dev/signal"
@@ -34,7 +35,14 @@ func allocsMain(args []string) {
 	st := NewStats("C18", tier, seed)
 	r := &Rng{s: seed*0x9E3779B97F4A7C15 + 0x2468ACE}
 	fmt.Fprintf(out, "transcript C18 %s %d\n", tier, seed)
-	runAllocs(out, st, r, tier)
+	func() {
+		defer func() {
+			if e := recover(); e != nil {
+				fmt.Fprintf(out, "gencrash %s\n", strings.ReplaceAll(fmt.Sprint(e), " ", "_"))
+			}
+		}()
+		runAllocs(out, st, r, tier)
+	}()
 	out.Flush()
 	f.Close()
 	st.Write(args[4])
